@@ -961,8 +961,21 @@ class BaseInterpreter(Generic[TContext, TEvent]):
                 interpreter._actor_sources[actor_id] = record["src"]
 
         # 🌐 Re-register restored actors under their original systemIds.
+        #    The registry is global to the hierarchy, so the id may belong to
+        #    a grandchild (or deeper): search the whole restored tree.
+        def _find_actor(
+            owner: "BaseInterpreter[Any, Any]", wanted: str
+        ) -> Optional["BaseInterpreter[Any, Any]"]:
+            for child_id, child_actor in owner._actors.items():
+                if child_id == wanted:
+                    return child_actor
+                deeper = _find_actor(child_actor, wanted)
+                if deeper is not None:
+                    return deeper
+            return None
+
         for system_id, actor_id in (snapshot.get("system") or {}).items():
-            restored_actor = interpreter._actors.get(actor_id)
+            restored_actor = _find_actor(interpreter, actor_id)
             if restored_actor is not None:
                 interpreter._system[system_id] = restored_actor
 
